@@ -489,6 +489,18 @@ def check_caller_inputs(p):
             q = copy.deepcopy(p)
             q["conf"]["large"] = int(target)
             eq(devs, "setter_target.pack", bytes(a.pack()), M.ref_pdu(q))
+    if k == "finished":
+        # PDUs from the convenience constructor are as independent as any others: setters on one (responses, fault location, codes)
+        # leave a second one, and every one built later, at the plain success PDU with its own length
+        s_a, s_b = P.FinishedPdu.success_pdu(M.build_conf(p["conf"])), P.FinishedPdu.success_pdu(M.build_conf(p["conf"]))
+        want_s = M.ref_pdu({"kind": "finished", "conf": p["conf"], "cc": 0, "delivery": 0, "status": 2, "responses": [], "fault": None})
+        s_a.file_store_responses = [M.build_tlv(r) for r in p["responses"]] or [M.build_tlv({"t": "fsresp", "action": 0, "status": 0, "n1": "x", "n2": "", "msg": ""})]
+        s_a.condition_code = cd.ConditionCode(4)
+        s_a.fault_location = M.build_tlv({"t": "entity", "id": "0102"})
+        s_a.pack()
+        for tag_s, obj_s in (("sibling", s_b), ("later", P.FinishedPdu.success_pdu(M.build_conf(p["conf"])))):
+            eq(devs, f"success_pdu.{tag_s}_after_setters_on_another.pack", bytes(obj_s.pack()), want_s)
+            eq(devs, f"success_pdu.{tag_s}_after_setters_on_another.packet_len", obj_s.packet_len, len(want_s))
     # ... and the caller going on to use (modify) its own configuration object does not reach into PDUs built earlier
     y = mk()
     conf.crc_flag = cd.CrcFlag(1 - p["conf"]["crc"])
